@@ -78,7 +78,7 @@ def main():
         'hooks': {
             'guard': '--cfg dandavison_delta_verif',
             'enable': 'RUSTFLAGS="--cfg dandavison_delta_verif --check-cfg cfg(dandavison_delta_verif)" cargo build --release (vlib/build.py, variant hooks)',
-            'baseline_off_cmd': 'cd /repo && cargo nextest run --workspace --no-fail-fast --test-threads 8 --offline || cargo test --workspace --no-fail-fast --offline',
+            'baseline_off_cmd': 'cd /repo && cargo test --workspace --no-fail-fast --offline',
             'source_commits': hook_commits,
             'add_only': True,
         },
